@@ -9,7 +9,7 @@
 (* pointer (the claims-set is told nothing): the spec takes whatever the   *)
 (* projection shows afterwards.                                            *)
 (***************************************************************************)
-EXTENDS PsaClaims, Json, IOUtils, CSV
+EXTENDS PsaClaimsSM, Json, IOUtils, CSV
 CONSTANT Depth
 VARIABLE hist
 svars == <<obj, ret, hist>>
